@@ -21,6 +21,7 @@ func lazyCase(c *fw.Ctx, stream string, malformed bool) {
 	if r.Chance(1, 25) {
 		data = nil // the empty message
 	}
+	orig := append([]byte{}, data...)
 	if malformed {
 		switch r.Intn(5) {
 		case 0:
@@ -58,6 +59,7 @@ func lazyCase(c *fw.Ctx, stream string, malformed bool) {
 	var rep []string
 	var res *lazyproto.DecodeResult
 	var derr error
+	var usedDec *lazyproto.Decoder
 	panicked := false
 	func() {
 		defer func() {
@@ -82,6 +84,7 @@ func lazyCase(c *fw.Ctx, stream string, malformed bool) {
 				derr = err
 				return
 			}
+			usedDec = dec
 			res, derr = dec.Decode(data)
 		}
 	}()
@@ -136,6 +139,36 @@ func lazyCase(c *fw.Ctx, stream string, malformed bool) {
 				res.Close()
 			}()
 		}
+	}
+	// a failed pass leaves nothing behind: the well-formed original decoded next with the same Decoder
+	// answers exactly as the reference parse of the original
+	if malformed && derr != nil && usedDec != nil && len(orig) > 0 {
+		func() {
+			defer func() {
+				if x := recover(); x != nil {
+					c.Violate(fw.Violation{Stream: stream, Signature: "lazy/panic-after-failed-decode", What: "decoding a well-formed message after a failed decode panicked", Input: desc})
+				}
+			}()
+			res2, err2 := usedDec.Decode(orig)
+			if err2 != nil || res2 == nil {
+				if _, ok := refParse(orig); ok && err2 != nil {
+					c.Violate(fw.Violation{Stream: stream, Signature: "lazy/decode-error-after-failed-decode", What: "a well-formed message is rejected by a Decoder whose previous input was malformed",
+						Input: desc + " then=" + trunc(hexs(orig), 300), Got: err2.Error()})
+				}
+				return
+			}
+			for i := 0; i < 6; i++ {
+				path := genLzPath(r, def, fs)
+				name := accNames[r.Intn(len(accNames))]
+				got := accessPath(res2, path, name)
+				if want, ok := refPathAnswer(orig, def, path, name); ok && want != got {
+					c.Violate(fw.Violation{Stream: stream, Signature: "lazy/answer-after-failed-decode/" + name, What: "after a failed decode, the next result of the same Decoder exposes values that are not those of its own input",
+						Input: desc + " then=" + trunc(hexs(orig), 300) + " path=" + pathString(path), Expected: trunc(want, 300), Got: trunc(got, 300)})
+					break
+				}
+			}
+			res2.Close()
+		}()
 	}
 	if malformed {
 		// on damaged input the property only asks for "an error or a result, never a panic": which error a
